@@ -292,6 +292,13 @@ func (fs *filesystem) Mount(ctx context.Context, mountpoint string, labels map[s
 	}
 	defer func() {
 		if retErr != nil {
+			// Don't leave the released layer registered (e.g. when the FUSE mount failed).
+			fs.layerMu.Lock()
+			if cur, ok := fs.layer[mountpoint]; ok && cur == l {
+				delete(fs.layer, mountpoint)
+				fs.metricsController.Remove(mountpoint)
+			}
+			fs.layerMu.Unlock()
 			l.Done() // don't use this layer.
 		}
 	}()
